@@ -48,6 +48,18 @@ PLANS = {
                 "distinct_nontrivial = distinct (world,text) whose lattice has complete paths of different cost",
         "assumptions": COMMON_ASSUMPTIONS + ["permissible word ends are taken from InputBuffer::can_bow (checked against its own model in C13)"],
     },
+    "C17": lambda tier: {
+        "level": "exploration",
+        "stages": [main_stage(30, 240, tier)],
+        "require": ["code_points_checked", "definitions_with_overlapping_lines", "permutations_checked", "iter_ranges_checked"],
+        "rule": "seeded definition files (0-40 lines; overlapping, nested, adjacent, duplicated, single-point ranges; ranges at 0, "
+                "around the surrogate gap and at U+10FFFE; 1-3 classes per line incl. ALL, NOOOVBOW, NOOOVBOW2; hex spelling "
+                "variants, comments) loaded with CharacterCategory::from_reader; for EVERY Unicode scalar value (1,112,064 per "
+                "definition, exhaustive per definition) the reported class set is compared with the union over covering lines "
+                "(DEFAULT if none); the same lines in shuffled order must give the same answer; iter() must tile the code space "
+                "and agree. distinct_nontrivial = distinct definitions in which some code point is covered by >=2 lines",
+        "assumptions": COMMON_ASSUMPTIONS + ["only definitions that load are judged (the property says so)"],
+    },
 }
 
 
